@@ -12,6 +12,10 @@ Precondition of the property: all workers parked, nothing pending, one producer.
   C07.wake-reaches a ring-targeted wake on a group futex cannot choose its waiter: the count given to
                    bumpAndWakeN must be the population count of the group's *full* sleep mask (the value
                    loaded from sleepMask, not a narrowed copy), or the wake must be bumpAndWakeAll.
+  C07.idle-count   wherever worker threads are started (constructor, resizeLocked) numNotWorking_ is
+                   seeded with the bound of the thread-start loop, before the threads start.
+  C07.claim-sentinel / C07.claim-delivery  the claim's result is tested as 'negative = nobody'; a claim
+                   of one sleeper must be delivered to that sleeper (known finding: it is not).
   C07.partition    threads-per-steal-ring (ThreadPool::kStealRingSharing) equals the default
                    threads-per-wake-group of PoolWakeState: a task placed in a steal ring is found only by
                    that ring's threads, and the accompanying wake goes to one wake group.
@@ -263,3 +267,31 @@ def run(R):
             R.ob("C07.claim-delivery", fn, e, ok, det, sitekey="claim->%s" % (narrow[0].get("name") if narrow else (wide[0].get("name") if wide else "none")),
                  why="a parked worker whose mask bit is cleared can only be woken by the wake that cleared it; if the kernel gives that wake to another waiter, n submissions into n parked workers start only n-1 tasks before the backstop")
     R.need("C07.claim-delivery", n, 1, "tryClaimSleeper call sites")
+
+    # ---- the idle count equals the number of workers that exist ---------------------------------------------
+    # bulk submissions wake `count - (numNotWorking_ - totalSleeping)` sleepers: the "spinning" estimate
+    # is only right if numNotWorking_ was seeded with the number of threads actually started. Seeding it
+    # with the *requested* count (before DISPENSO_MAX_THREADS_PER_POOL caps it) leaves a permanent
+    # surplus that is mistaken for spinners: toWake becomes 0 and nothing is woken.
+    from lib.rules import natural_loops, same_value
+    n = 0
+    NNW = "dispenso::ThreadPool::numNotWorking_"
+    for q in ("dispenso::ThreadPool::(ctor)", "dispenso::ThreadPool::resizeLocked"):
+        for fn in F.functions(qname=q):
+            starts = [(p, e) for p, e in fn.events() if is_call(e, "dispenso::ThreadPool::PerThreadData::setThread")]
+            stores = [a for a in atomic_ops(F, fn) if a.field == NNW and a.op == "store"]
+            if not starts:
+                continue
+            n += 1
+            bound = None
+            for h, body, tails in natural_loops(fn):
+                if any(p.b in body for p, _ in starts):
+                    c = comparison_of((fn.term(h) or {}).get("cond"), True, lambda x: isinstance(strip_casts(x), dict) and strip_casts(x).get("k") == "var")
+                    if c and c[0] in ("<", "!="):
+                        bound = c[1]
+            ok = bound is not None and len(stores) >= 1 and all(same_value(strip_casts(a.node["args"][0]), bound, fn) for a in stores) and all(fn.dominates(a.pos, p) for a in stores for p, _ in starts)
+            R.ob("C07.idle-count", fn, stores[0].node if stores else fn.loc, ok,
+                 "numNotWorking_ is seeded with the bound of the thread-start loop (%s), before the threads start" % expr_str(bound) if ok else
+                 "numNotWorking_ is seeded with %s but %s threads are started: the surplus is counted as spinning workers and bulk submissions into the parked pool wake nobody" % (expr_str(stores[0].node["args"][0]) if stores else "nothing", expr_str(bound)),
+                 sitekey="seed@" + q.split("::")[-1], why="the number of sleepers to wake is computed from numNotWorking_; it must describe the threads that exist")
+    R.need("C07.idle-count", n, 2, "functions that start worker threads")
